@@ -15,7 +15,7 @@ from automata.fa.dfa import DFA
 from automata.fa.nfa import NFA
 
 from harness import gen, langoracle
-from harness.common import Ctx, Toks, call, dfa_plain, enc_dfa, enc_nfa, nfa_plain, toks
+from harness.common import guarded, Ctx, Toks, call, dfa_plain, enc_dfa, enc_nfa, nfa_plain, toks
 from harness.dfaops_common import (check_valid, lang_mismatch, parse_canon, py_canon, render_block, render_subset)
 
 LEVEL = "proof"
@@ -35,6 +35,7 @@ def nontrivial(src, n_states) -> bool:
             and langoracle.find_word([src], al, lambda v: not v[0]) is not None)
 
 
+@guarded
 def do_from_nfa(ctx: Ctx, N: NFA, retain: bool, minify: bool, origin: str):
     drv = ctx.driver("drv_dfa_ops")
     encN, st, sy = enc_nfa(N)
@@ -75,6 +76,7 @@ def do_from_nfa(ctx: Ctx, N: NFA, retain: bool, minify: bool, origin: str):
         ctx.corr_diff("DFA_FROM_NFA", replay, imp, mod)
 
 
+@guarded
 def do_from_dfa(ctx: Ctx, D: DFA, origin: str):
     drv = ctx.driver("drv_dfa_ops")
     encD, st, sy = enc_dfa(D)
@@ -105,6 +107,7 @@ def do_from_dfa(ctx: Ctx, D: DFA, origin: str):
         ctx.corr_diff("NFA_FROM_DFA", replay, imp, mod)
 
 
+@guarded
 def do_elim(ctx: Ctx, N: NFA, origin: str):
     drv = ctx.driver("drv_dfa_ops")
     encN, st, sy = enc_nfa(N)
